@@ -43,6 +43,7 @@ LexExtra == <<<<39, 97>> \o NL \o <<98, 39, 32, 43, 32, 120>>, <<96, 97>> \o NL 
               <<233, 32, 26195, 32, 43>> \o NL \o <<32, 233>>, <<9, 120, 9, 43>> \o NL \o <<9, 121>>,
               <<34, 92, 110, 34, 32, 120>>, <<39, 233>> \o NL \o <<39, 120, 46, 121>>,
               <<49, 46, 53, 101, 43, 51, 32, 48, 120, 70, 32, 48, 98, 49, 48, 32, 48, 111, 55>>,
+              <<49, 101, 48, 53, 32, 49, 46, 53, 101, 45, 48, 53, 32, 50, 69, 43, 48, 48, 55, 32, 48, 46, 50, 53, 101, 48, 48>>, <<49, 101, 48, 48>>, <<51, 101, 45, 48, 48, 55, 43, 49>>,
               <<49, 46, 50, 46, 51>>, <<49, 101, 53, 101, 51>>, <<48, 53>>, <<49, 46>>, <<46, 53>>, <<49, 101>>, <<48, 120>>,
               <<34, 92, 117, 48, 48, 52, 49, 34>>, <<34, 92, 47, 34>>, <<34, 92, 113, 34>>, <<34, 97>>, <<96, 97>>, <<39, 97>>,
               <<120, 46, 121, 63, 122, 58, 119>>, <<120, 46, 94, 46, 121>>, <<120, 63, 63, 121>>, <<120, 63, 46, 121>>,
@@ -82,7 +83,11 @@ Shapes2 == <<X \o SP \o N_plus \o SP \o Y \o SP \o N_star \o SP \o Z, X \o SP \o
              X \o SP \o N_star \o SP \o Y \o N_lbr \o Z \o N_rbr \o SP \o N_plus \o SP \o Z,
              N_lpar \o X \o SP \o N_plus \o SP \o Y \o N_rpar \o SP \o N_plus \o SP \o Z,
              X \o SP \o N_plus \o SP \o N_lpar \o Y \o SP \o N_plus \o SP \o Z \o N_rpar,
-             N_lpar \o X \o SP \o N_plus \o SP \o Y \o N_rpar \o SP \o N_star \o SP \o Z \o SP \o N_plus \o SP \o X>>
+             N_lpar \o X \o SP \o N_plus \o SP \o Y \o N_rpar \o SP \o N_star \o SP \o Z \o SP \o N_plus \o SP \o X,
+             \* parentheses directly around parentheses
+             N_lpar \o N_lpar \o X \o SP \o N_plus \o SP \o Y \o N_rpar \o N_rpar \o SP \o N_star \o SP \o Z,
+             Z \o SP \o N_star \o SP \o N_lpar \o N_lpar \o X \o SP \o N_plus \o SP \o Y \o N_rpar \o N_rpar,
+             N_lpar \o N_lpar \o N_lpar \o X \o N_rpar \o N_rpar \o N_rpar \o SP \o N_plus \o SP \o N_lpar \o N_lpar \o Y \o N_rpar \o N_rpar>>
 ShapesU == <<N_tilde \o SP \o X \o SP \o N_plus \o SP \o Y, X \o SP \o N_plus \o SP \o N_tilde \o SP \o Y,
              X \o SP \o N_plus \o SP \o Y \o SP \o N_bang, X \o SP \o N_bang \o SP \o N_plus \o SP \o Y,
              N_tilde \o SP \o X \o SP \o N_bang, N_tilde \o SP \o N_tilde \o SP \o X, X \o SP \o N_bang \o SP \o N_bang,
@@ -129,6 +134,7 @@ SugarShapes ==
        <<34, 72, 34, 46, 108, 101, 110, 40, 41>>, <<97, 46, 98, 46, 99, 40, 49, 44, 32, 50, 41>>,      \* "H".len()  a.b.c(1, 2)
        \* explicit calls without sugar beneath them, of names that have polymorphic AND monomorphic overloads (for the
        \* "one parsed tree compiled for several environments" part of the harness)
+       <<40, 120, 32, 61, 61, 32, 120, 41, 32, 61, 61, 32, 120>>, <<120, 32, 33, 61, 32, 40, 120, 32, 33, 61, 32, 120, 41>>, <<40, 40, 120, 41, 41, 32, 43, 32, 40, 40, 40, 49, 41, 41, 41>>,      \* (x == x) == x   x != (x != x)   ((x))
        <<108, 101, 110, 40, 120, 41>>,      \* len(x)
        <<108, 101, 110, 40, 120, 41, 32, 43, 32, 48>>,      \* len(x) + 0
        <<91, 108, 101, 110, 40, 120, 41, 93>>,      \* [len(x)]
